@@ -73,6 +73,9 @@ func (p *Peer) SetRefuse(v bool) { p.refuse.Store(v) }
 // Refusing reports whether dials to this peer fail.
 func (p *Peer) Refusing() bool { return p.Refuse || p.refuse.Load() }
 
+// SessionCount is the number of sessions (dials that reached the peer) so far.
+func (p *Peer) SessionCount() int { p.mu.Lock(); defer p.mu.Unlock(); return p.Sessions }
+
 // HasLied reports whether the peer has served falsified filter data.
 func (p *Peer) HasLied() bool { p.mu.Lock(); defer p.mu.Unlock(); return p.Lied }
 
